@@ -817,3 +817,53 @@ def the_class_creation_registry_is_emptied_before_anything_can_fail(ctx):
               f'`{src(rem[0])}` precedes every raise of __set_name__ ({len(raises)})',
               f'`{src(late[0])[:80] if late else ""}` can be raised before `{src(rem[0])}` ran: the entry of this function stays in the registry shared by all '
               'handlers, and a later class defining a method of the same qualified name is refused as duplicate', f)
+
+
+@rule('C09.R2j', min_instances=1)
+def a_proxy_class_is_built_from_copies(ctx):
+    """frappy.proxy.proxy_class takes the accessibles of the remote class and puts them on a new class: only COPIES may be changed.
+    Decorating with the original Command object (`aobj(cfunc)` - Command.__call__ stores the function on the object and returns it),
+    merging into it or storing attributes on it changes the accessible of the proxied class - for an inherited command (stop) that
+    is the object of Drivable itself, for every instance created before and after"""
+    m = ctx.m
+    pc = m.functions.get('frappy.proxy.proxy_class')
+    if pc is None:
+        raise AnchorMissing('frappy.proxy.proxy_class not found')
+    n = 0
+    todo, seen = [], set()
+    for l in [x for x in ast.walk(pc.node) if isinstance(x, (ast.For, ast.comprehension)) and 'accessibles' in src(x.iter)]:
+        names = {t.id for t in ast.walk(l.target) if isinstance(t, ast.Name)}
+        # the accessible object is the value of the pair
+        if isinstance(l.target, ast.Tuple) and len(l.target.elts) == 2 and isinstance(l.target.elts[1], ast.Name):
+            names = {l.target.elts[1].id}
+        todo.append((pc, names))
+    if not todo:
+        raise AnchorMissing('loop over the accessibles of the remote class not found in proxy_class')
+    while todo:
+        f, names = todo.pop()
+        key = (f.qualname, tuple(sorted(names)))
+        if key in seen or not names:
+            continue
+        seen.add(key)
+        n += 1
+        ctx.analysed(f)
+        hits = []
+        for x in ast.walk(f.node):
+            if isinstance(x, ast.Call):
+                if isinstance(x.func, ast.Name) and x.func.id in names:
+                    hits.append(x)          # the object itself used as decorator / called
+                elif isinstance(x.func, ast.Attribute) and isinstance(x.func.value, ast.Name) and x.func.value.id in names and \
+                        x.func.attr in ('merge', 'setProperty', 'init', 'updateProperties', 'finish', 'set_datatype'):
+                    hits.append(x)
+                elif isinstance(x.func, ast.Name):
+                    g = m.functions.get(f'{f.module.name}.{x.func.id}')
+                    if g is not None and g.cls is None:
+                        pos = [a.arg for a in g.node.args.args]
+                        t2 = {pos[i] for i, a in enumerate(x.args) if i < len(pos) and isinstance(a, ast.Name) and a.id in names}
+                        if t2:
+                            todo.append((g, t2))
+            if isinstance(x, ast.Attribute) and isinstance(x.ctx, ast.Store) and isinstance(x.value, ast.Name) and x.value.id in names:
+                hits.append(x)
+        ctx.check(not hits, f'{f.qualname}:the accessibles of the proxied class are only copied', hits[0] if hits else f.node, f'{sorted(names)}: no call of / store on / merge into the original object',
+                  f'`{src(hits[0]) if hits else ""}` changes the accessible object of the proxied class itself (not a copy): after proxy_class() the class it was taken from - and for an '
+                  'inherited command its base class and every sibling - behaves differently', f)
